@@ -208,6 +208,53 @@ theorem loop_saturated (cls : Nat → Cls) (fuel : Nat) (st vis out r : List Nat
     | zero => simp [loop] at h
     | succ fuel => simp [loop, hm] at h; exact h.symm
 
+/-! ### reachability -/
+
+/-- `n` is reachable from `roots` through the resolved /Kids of nodes the loop expands -/
+inductive Reach (cls : Nat → Cls) (roots : List Nat) : Nat → Prop
+  | root (n : Nat) : n ∈ roots → Reach cls roots n
+  | kid (p : Nat) (ks : List Nat) (n : Nat) :
+      Reach cls roots p → cls p = .inner ks → n ∈ ks → Reach cls roots n
+
+theorem loop_reach (cls : Nat → Cls) (roots : List Nat) :
+    ∀ (fuel : Nat) (st vis out r : List Nat), loop cls fuel st vis out = some r →
+      (∀ x ∈ st, Reach cls roots x) → (∀ x ∈ out, Reach cls roots x) →
+      ∀ x ∈ r, Reach cls roots x := by
+  intro fuel
+  induction fuel with
+  | zero =>
+    intro st vis out r h _ ho
+    cases st with
+    | nil => simp [loop] at h; subst h; exact ho
+    | cons a s => simp [loop] at h
+  | succ fuel ih =>
+    intro st vis out r h hs ho
+    cases st with
+    | nil => simp [loop] at h; subst h; exact ho
+    | cons n st =>
+      have hn : Reach cls roots n := hs n List.mem_cons_self
+      have hst : ∀ x ∈ st, Reach cls roots x := fun x hx => hs x (List.mem_cons_of_mem _ hx)
+      simp only [loop] at h
+      split at h
+      · simp at h; subst h; exact ho
+      · split at h
+        · exact ih _ _ _ _ h hst ho
+        · split at h
+          · refine ih _ _ _ _ h hst ?_
+            intro x hx
+            simp at hx
+            rcases hx with hx | hx
+            · exact ho x hx
+            · subst hx; exact hn
+          · rename_i ks hc
+            refine ih _ _ _ _ h ?_ ho
+            intro x hx
+            simp at hx
+            rcases hx with hx | hx
+            · exact Reach.kid n ks x hn hc hx
+            · exact hst x hx
+          · exact ih _ _ _ _ h hst ho
+
 /-! ### forests -/
 
 /-- rose forests in first-child / next-sibling form -/
@@ -592,5 +639,72 @@ theorem walk_chain (g : Graph) (page : Dict) :
           cases hi : inh.get k with
           | some w => simp [firstSome]
           | none => simp [firstSome]
+
+/-- the ancestors the /Parent walk actually visits on an ARBITRARY graph: it stops at a node
+without /Parent (`root`), at a parent that is not a dictionary — dangling, null, an array …
+(`dangling`) — or at a node it has already seen: a /Parent cycle (`cycle`).  `vis` = the nodes
+visited before this point. -/
+inductive ChainT (g : Graph) : List Nat → Option Nat → List (Nat × Dict) → Prop
+  | root (vis : List Nat) : ChainT g vis none []
+  | dangling (vis : List Nat) (p : Nat) : (g.get p).asDict = none → ChainT g vis (some p) []
+  | cycle (vis : List Nat) (p : Nat) : p ∈ vis → ChainT g vis (some p) []
+  | step (vis : List Nat) (p : Nat) (d : Dict) (rest : List (Nat × Dict)) :
+      p ∉ vis → (g.get p).asDict = some d → ChainT g (p :: vis) d.parent rest →
+      ChainT g vis (some p) ((p, d) :: rest)
+
+theorem walk_chainT (g : Graph) (page : Dict) :
+    ∀ (chain : List (Nat × Dict)) (cur : Option Nat) (vis : List Nat) (inh : Inh),
+      ChainT g vis cur chain →
+      ∃ r, walk g page (chain.length + 1) cur vis inh = some r ∧
+        ∀ k, r.get k = if (page.attr k).isNone
+          then firstSome (inh.get k :: chain.map (fun e => e.2.attr k)) else inh.get k := by
+  intro chain
+  induction chain with
+  | nil =>
+    intro cur vis inh hc
+    have hk : ∀ k, inh.get k = if (page.attr k).isNone
+        then firstSome (inh.get k :: ([] : List (Nat × Dict)).map (fun e => e.2.attr k)) else inh.get k := by
+      intro k
+      cases hk : inh.get k <;> simp [firstSome]
+    cases hc with
+    | root => exact ⟨inh, by simp [walk], hk⟩
+    | dangling _ p hd => exact ⟨inh, by simp [walk, hd], hk⟩
+    | cycle _ p hv => exact ⟨inh, by simp [walk, hv], hk⟩
+  | cons e rest ih =>
+    intro cur vis inh hc
+    cases hc with
+    | step _ p d _ hpv hd hrest =>
+      obtain ⟨r, hr, hk⟩ := ih d.parent (p :: vis) (merge page inh d) hrest
+      refine ⟨r, ?_, ?_⟩
+      · simp only [List.length_cons, walk, hpv, if_false, hd]
+        exact hr
+      · intro k
+        rw [hk k, merge_get]
+        unfold mergeKey
+        cases hp : page.attr k with
+        | some v => simp
+        | none =>
+          cases hi : inh.get k with
+          | some w => simp [firstSome]
+          | none => simp [firstSome]
+
+/-- every well-founded chain is a truncated chain (with nothing to truncate) -/
+theorem chain_chainT (g : Graph) :
+    ∀ (chain : List (Nat × Dict)) (cur : Option Nat) (vis : List Nat),
+      Chain g cur chain → (chain.map (·.1)).Nodup → (∀ x ∈ chain.map (·.1), x ∉ vis) →
+      ChainT g vis cur chain := by
+  intro chain
+  induction chain with
+  | nil => intro cur vis hc _ _; cases hc; exact ChainT.root vis
+  | cons e rest ih =>
+    intro cur vis hc hn hv
+    cases hc with
+    | step p d _ hd hrest =>
+      simp only [List.map_cons, List.nodup_cons] at hn
+      refine ChainT.step vis p d rest (hv p (by simp)) hd (ih _ _ hrest hn.2 ?_)
+      intro x hx hx2
+      cases hx2 with
+      | head => exact hn.1 hx
+      | tail _ h2 => exact hv x (by simp at hx ⊢; exact Or.inr hx) h2
 
 end OxiVerif.C18
